@@ -8,7 +8,8 @@ Python counterparts (the tree WITH the repairs F-C07, F-C07b, F-C07c):
 * `TaxBenefitSystem.get_parameters_at_instant` (`functools.lru_cache`, keyed by `(self, instant)`,
   `maxsize = 128`, ONE cache for the whole process: a baseline and its reforms share it) ↦ `viewAt`
   on a `World` (`memo`, `memoTouch`, `cacheSize`)
-* `TaxBenefitSystem.load_extension` (`cache_clear()`, then `ParameterNode.merge` IN PLACE) ↦ `Op.extend`
+* `TaxBenefitSystem.load_extension` (`cache_clear()`, own copy for a reform that shares its baseline's
+  tree — repair C14f —, then `ParameterNode.merge` IN PLACE) ↦ `Op.extend`
   (`mergeInto`); `_get_baseline_parameters_at_instant` ↦ `Read.baseView` (`rootOf`)
 * `TaxBenefitSystem.load_parameters`                    ↦ `Op.reload`   (tree built, `preprocess_parameters`
   hook run, tree replaced, memo emptied — in that order)
@@ -300,6 +301,24 @@ def mergeInto (cs : List (String × PNode V)) : List (String × PNode V) → Lis
   | [] => (cs, true)
   | (k, c) :: r => if (assoc k cs).isSome then (cs, false) else mergeInto (cs ++ [(k, c)]) r
 
+/-- `self.baseline is not None and self.parameters is self.baseline.parameters` -/
+def sharesWithBaseline (w : World V) (r : SysRec) : Bool :=
+  match r.baseline with
+  | none => false
+  | some b =>
+    match w.systems[b]? with
+    | some rb => rb.tree == r.tree
+    | none => false
+
+/-- `self.parameters = copy.deepcopy(self.parameters)`: system `s` now refers to a new object, equal
+    to object `i`; every other system keeps its reference -/
+def ownCopy (w : World V) (s i : Nat) : World V × Nat :=
+  match w.heap[i]? with
+  | some t =>
+    ({ w with heap := w.heap ++ [t],
+              systems := w.systems.modify s (fun r => { r with tree := some w.heap.length }) }, w.heap.length)
+  | none => (w, i)
+
 inductive Op (V : Type) where
   /-- `system.get_parameters_at_instant(instant).<path>` -/
   | readView (s form : Nat) (d : Int) (path : List String)
@@ -371,17 +390,20 @@ def step (w : World V) : Op V → World V × Obs V
   | .extend s ext =>
     match w.systems[s]? with
     | none => (w, .failed "no such system")
-    | some r =>                                       -- `cache_clear()` first, then `self.parameters.merge(…)`
+    | some r =>                                       -- `cache_clear()` first
       match r.tree with
       | none => ({ w with memo := [] }, .failed "AttributeError: None")
       | some i =>
-        match w.heap[i]? with
-        | some (.node cs) =>
-          ({ w with heap := w.heap.set i (.node (mergeInto cs ext).1), memo := [] },
-            if (mergeInto cs ext).2 then .done else .failed "ValueError: already a child")
-        | some (.param _) => ({ w with memo := [] }, .failed "AttributeError")
-        | some (.scale _ _) => ({ w with memo := [] }, .failed "AttributeError")
-        | none => ({ w with memo := [] }, .failed "dangling reference")
+        -- a reform that still refers to its baseline's object gets its own copy first (repair C14f)
+        match (if sharesWithBaseline w r then ownCopy w s i else (w, i)) with
+        | (w1, j) =>
+          match w1.heap[j]? with                      -- then `self.parameters.merge(…)`, in place
+          | some (.node cs) =>
+            ({ w1 with heap := w1.heap.set j (.node (mergeInto cs ext).1), memo := [] },
+              if (mergeInto cs ext).2 then .done else .failed "ValueError: already a child")
+          | some (.param _) => ({ w1 with memo := [] }, .failed "AttributeError")
+          | some (.scale _ _) => ({ w1 with memo := [] }, .failed "AttributeError")
+          | none => ({ w1 with memo := [] }, .failed "dangling reference")
 
 /-- NOT the code's order (kept to show that the order matters): the memo is emptied BEFORE the
     modifier runs, and not after the tree is installed. -/
@@ -415,6 +437,28 @@ def Op.target : Op V → Option Nat
   | .readFormula .. => none
   | .read _ => none
   | .newReform _ => none
+
+/-- Does the operation, run in state `w`, leave the tree of system `b` alone? A replacement of another
+    system's tree does; an extension does when it is loaded on another system that either gets its own
+    copy first or does not refer to `b`'s object. -/
+def Op.spares (w : World V) (b : Nat) : Op V → Bool
+  | .modify s _ => s != b
+  | .reload s _ _ => s != b
+  | .extend s _ =>
+    s != b &&
+    (match w.systems[s]?, w.systems[b]? with
+     | some r, some rb => sharesWithBaseline w r || r.tree != rb.tree
+     | _, _ => true)
+  | .readView .. => true
+  | .readTree .. => true
+  | .readFormula .. => true
+  | .read _ => true
+  | .newReform _ => true
+
+/-- every operation of the history, in the state it runs in, leaves the tree of `b` alone -/
+def Spared (b : Nat) : World V → List (Op V) → Prop
+  | _, [] => True
+  | w, op :: ops => op.spares w b = true ∧ Spared b (step w op).1 ops
 
 /-- does the operation change a tree OBJECT in place (so that every system referring to it is affected) -/
 def Op.inPlace : Op V → Bool
